@@ -625,3 +625,145 @@ func groupDupKeys(s *sink, g *hx.Gen) {
 		}
 	}
 }
+
+// groupRules: an object whose properties carry presence rules, nested under a random container
+// path, given otherwise valid inputs that violate EXACTLY ONE rule of ONE property: the rejection
+// must be a constraint error whose path leads to that property (C17). The expected path is computed
+// from the rule and the container path alone. Keys of the enclosing maps include characters that are
+// special to fmt (%), to regexps and to paths.
+func groupRules(s *sink, g *hx.Gen) {
+	leaf := func() *hx.Ty {
+		return []*hx.Ty{{T: "int"}, {T: "str"}, {T: "bool"}}[g.R.Intn(3)]
+	}
+	names := []string{"mode", "detail", "extra", "other"}
+	n := 2 + g.R.Intn(3)
+	props := make([]hx.NamedProp, n)
+	for i := range props {
+		props[i] = hx.NamedProp{Name: names[i], P: &hx.Prop{Ty: leaf()}}
+	}
+	// one or two rules
+	for k := 0; k < 1+g.R.Intn(2); k++ {
+		i := g.R.Intn(n)
+		j := (i + 1 + g.R.Intn(n-1)) % n
+		switch g.R.Intn(4) {
+		case 0:
+			props[i].P.Required = true
+		case 1:
+			props[i].P.RequiredIf = append(props[i].P.RequiredIf, names[j])
+		case 2:
+			props[i].P.RequiredIfNot = append(props[i].P.RequiredIfNot, names[j])
+		default:
+			props[i].P.Conflicts = append(props[i].P.Conflicts, names[j])
+		}
+	}
+	obj := &hx.Ty{T: "obj", ID: "R", Props: props}
+	// the rules violated by a set of present properties: (property, rule) pairs
+	violations := func(present map[string]bool) []string {
+		var out []string
+		for _, np := range props {
+			if !present[np.Name] {
+				if np.P.Required {
+					out = append(out, np.Name)
+				}
+				for _, r := range np.P.RequiredIf {
+					if present[r] {
+						out = append(out, np.Name)
+					}
+				}
+				if len(np.P.RequiredIfNot) > 0 {
+					none := true
+					for _, r := range np.P.RequiredIfNot {
+						if present[r] {
+							none = false
+						}
+					}
+					if none {
+						out = append(out, np.Name)
+					}
+				}
+			} else {
+				for _, r := range np.P.Conflicts {
+					if present[r] {
+						out = append(out, np.Name)
+					}
+				}
+			}
+		}
+		return out
+	}
+	// container path around the object
+	keyPool := []string{"k", "cpu%", "100%d", "%s", "x%%y", "a b", "a.b", "[0]", "é", "", "rate(%)"}
+	type wrap struct {
+		ty  func(*hx.Ty) *hx.Ty
+		val func(*hx.Val) *hx.Val
+		seg string
+	}
+	var wraps []wrap
+	for d := g.R.Intn(3); d > 0; d-- {
+		switch g.R.Intn(3) {
+		case 0:
+			wraps = append(wraps, wrap{func(t *hx.Ty) *hx.Ty { return &hx.Ty{T: "list", Item: t} },
+				func(v *hx.Val) *hx.Val { return hx.List(v) }, "[0]"})
+		case 1:
+			key := keyPool[g.R.Intn(len(keyPool))]
+			wraps = append(wraps, wrap{func(t *hx.Ty) *hx.Ty { return &hx.Ty{T: "map", K: &hx.Ty{T: "str"}, V: t} },
+				func(v *hx.Val) *hx.Val { return hx.StrAny([2]*hx.Val{hx.Str(key), v}) }, "[" + key + "]"})
+		default:
+			wraps = append(wraps, wrap{func(t *hx.Ty) *hx.Ty {
+				return &hx.Ty{T: "obj", ID: "W" + strconv.Itoa(g.R.Intn(1000)), Props: []hx.NamedProp{{Name: "child", P: &hx.Prop{Ty: t}}, {Name: "n", P: &hx.Prop{Ty: &hx.Ty{T: "int"}}}}}
+			}, func(v *hx.Val) *hx.Val { return hx.StrAny([2]*hx.Val{hx.Str("child"), v}) }, "child"})
+		}
+	}
+	t := obj
+	for _, w := range wraps {
+		t = w.ty(t)
+	}
+	for mask := 0; mask < 1<<n; mask++ {
+		present := map[string]bool{}
+		m := hx.StrAny()
+		for i, np := range props {
+			if mask&(1<<i) != 0 {
+				present[np.Name] = true
+				var pv *hx.Val
+				switch np.P.Ty.T {
+				case "int":
+					pv = []*hx.Val{hx.Int("int64", 5), hx.Str("12"), hx.Uint("uint8", 3)}[g.R.Intn(3)]
+				case "str":
+					pv = []*hx.Val{hx.Str("s"), hx.Str("cpu%d"), hx.Int("int64", 7)}[g.R.Intn(3)]
+				default:
+					pv = []*hx.Val{hx.Bool(true), hx.Str("yes"), hx.Int("int64", 0)}[g.R.Intn(3)]
+				}
+				m.M = append(m.M, [2]*hx.Val{hx.Str(np.Name), pv})
+			}
+		}
+		viol := violations(present)
+		var v *hx.Val = m
+		var path []string
+		for _, w := range wraps {
+			v = w.val(v)
+			path = append([]string{w.seg}, path...)
+		}
+		for _, op := range []string{"U"} {
+			arg := v
+			cmp := "class" // with several violated rules the one reported depends on map iteration order
+			if len(viol) <= 1 {
+				cmp = "path"
+			}
+			r, id, _ := s.emit(op, t, arg, nil, false, cmp, "rules:"+op)
+			s.stats[fmt.Sprintf("rules:violations=%d", len(viol))]++
+			if len(viol) == 1 && r.R == "err" {
+				want := append(append([]string{}, path...), viol[0])
+				if r.C == nil || !*r.C || !samePath(stripMarkers(r.Path), want) {
+					s.finding(Finding{Prop: "C17", What: "rejection does not name the property whose presence rule is violated",
+						Cases: []int{id}, Schema: t, Input: arg, Detail: []string{"expected path " + pathText(want), "got " + r.JSON()}})
+				}
+			}
+			if len(viol) == 0 && r.R == "err" {
+				s.finding(Finding{Prop: "C03", What: "an input violating no presence rule, with valid values, is rejected", Cases: []int{id}, Schema: t, Input: arg, Detail: []string{r.JSON()}})
+			}
+			if len(viol) > 0 && r.R == "ok" {
+				s.finding(Finding{Prop: "C03", What: "an input violating a presence rule is accepted", Cases: []int{id}, Schema: t, Input: arg, Detail: viol})
+			}
+		}
+	}
+}
